@@ -27,9 +27,9 @@ def gen_ops(rng, tier):
     ops = []
     for i in range(8000 if big else 1100):
         prec = rng.choice([8, 8, 8, 8, 12])
-        ops.append("g11d %d %d %d %d %d %d %d %d %d %d %d" % (rng.choice([0, 1, 2, 3, 4, 5, 6, 2, 1]), rng.choice([rng.randint(1, 70), rng.randint(1, 40), 16, 32, 33, 31]), rng.randint(1, 30),
+        ops.append("g11d %d %d %d %d %d %d %d %d %d %d %d %d" % (rng.choice([0, 1, 2, 3, 4, 5, 6, 2, 1]), rng.choice([rng.randint(1, 70), rng.randint(1, 40), 16, 32, 33, 31]), rng.randint(1, 30),
                                                            rng.randrange(1 << 30), rng.randrange(12), rng.randrange(16), rng.choice([0, 0, 1, 2, 3, 7, 40]), rng.randrange(2), rng.randrange(2),
-                                                           rng.choice([0, 0, 0] + list(range(1, 40))), prec))
+                                                           rng.choice([0, 0, 0] + list(range(1, 40))), prec, rng.randrange(4)))
     for i in range(4000 if big else 500):
         prec = rng.choice([8, 8, 8, 12, 16, rng.randint(2, 16)])
         ll = 1 if prec not in (8, 12) else rng.randrange(2)
